@@ -485,3 +485,58 @@ func pick3(rng *rand.Rand, from []uint16) []uint16 {
 	p := rng.Perm(len(from))
 	return []uint16{from[p[0]], from[p[1]], from[p[2]]}
 }
+
+// ForeignLines produces lines whose records are all tagged with location loc,
+// placed right next to the existing data (same owners, children, apexes,
+// wildcards, delegations, glue), plus subnets of a map no name is bound to.
+func ForeignLines(rng *rand.Rand, w *World, loc string) []Line {
+	tmp := &World{Maps: model.NewMaps()}
+	b := &builder{rng: rng, w: tmp}
+	n := 3 + rng.Intn(10)
+	var targets []string
+	for _, r := range w.Recs {
+		if r.Target != "" {
+			targets = append(targets, r.Target)
+		}
+	}
+	for i := 0; i < n; i++ {
+		owner := w.Owners[rng.Intn(len(w.Owners))]
+		zone := w.Zones[rng.Intn(len(w.Zones))]
+		switch rng.Intn(10) {
+		case 0: // at an existing name
+			b.addrLine(owner, false, loc, b.randIP(), 0)
+		case 1: // other type at an existing name
+			b.txtLine(owner, false, loc)
+		case 2: // a new name below an existing one
+			b.addrLine(join(Labels[rng.Intn(len(Labels))], owner), false, loc, b.randIP(), 0)
+		case 3: // apex SOA+NS
+			b.nsLine(true, zone, loc, "foreign-ns."+zOr(zone, "example.net"), b.randIP())
+		case 4: // wildcard at an existing name / apex
+			if rng.Intn(2) == 0 {
+				b.addrLine(owner, true, loc, b.randIP(), 0)
+			} else {
+				b.txtLine(zone, true, loc)
+			}
+		case 5: // a new delegation
+			child := join([]string{"fdeleg", "a", "www"}[rng.Intn(3)], zone)
+			b.nsLine(false, child, loc, "ns."+child, b.randIP())
+		case 6: // delegation exactly at an existing name
+			b.nsLine(false, owner, loc, "nsf.example.net", b.randIP())
+		case 7: // glue of an existing NS/MX target
+			if len(targets) > 0 {
+				b.addrLine(targets[rng.Intn(len(targets))], false, loc, b.randIP(), 2)
+			}
+		case 8: // CNAME at an existing name
+			b.simpleLine("C", TCNAME, owner, false, loc, "foreign.example.net", NameWire("foreign.example.net"), "")
+		default: // SOA only (Z line) at a name inside the zone
+			b.soaLine(join("fz", zone), loc)
+		}
+	}
+	// subnets of a map that is bound to no name: new prefix lengths for CDB's global set
+	for i := 0; i < 1+rng.Intn(3); i++ {
+		cidr := []string{"172.16.0.0/13", "100.64.0.0/10", "2001:db8:aaaa::/77", "198.18.0.0/15", "fc00::/7", "10.1.0.0/17", "198.51.1.0/26"}[rng.Intn(7)]
+		l := []string{loc, "aa", "bb", "zz"}[rng.Intn(4)]
+		b.add(fmt.Sprintf("%%%s,%s,%s", OctalAll(l), cidr, OctalAll("Mz")))
+	}
+	return tmp.Lines
+}
